@@ -79,6 +79,15 @@ PROPS = {
                      "the values of Fr::char() (= r) and of the curve coefficient constant are closed-term facts assumed in this unit"],
         assumptions=[A['A3'], A['A4'], "ff::BitIterator contract (MSB-first bits of the limb value) assumed: dependency", A['D_FQ'], A['TOOLS']],
     ),
+    'C02': dict(
+        units_quick=['scalar'], units_thorough=['scalar', 'curve'], timeout=600,
+        claim="PARTIAL: the plain scalar-multiplication paths (real bodies, G1 and G2): affine mul_bits / mul (double and mixed add, MSB first) and "
+              "projective mul_assign (leading-zero skipping) return [k]P for every limb value k of the scalar representation (all 2^256 values, any limb "
+              "count for mul_bits), by a loop invariant over ff's BitIterator contract and proved bit-decomposition lemmas.",
+        not_covered=["wNAF (wnaf_table, wnaf_form, wnaf_exp, Wnaf contexts) - contracts not completed", "precomp_3 / mul_precomp_3, precomp_256 / mul_precomp_256 - contracts not completed",
+                     "recommended_wnaf_* ranges - not completed", "ff::BitIterator itself (dependency; contract assumed)"],
+        assumptions=[A['A3'], "ff::BitIterator contract assumed (dependency)", "group-level contracts of double / add_assign / add_assign_mixed are the statements of unit curve lifted through A3", A['TOOLS']],
+    ),
 }
 
 HOOK_COMMITS = []
